@@ -986,6 +986,14 @@ pub fn c19_instances(tier: Tier) -> Vec<Instance> {
             i.tick_budget = if seq.len() <= 2 || tier == Tier::Thorough { 2 } else { 0 };
             // a transport whose flush takes two more polls: free on a connection that never flushes
             i.slow_flush = 2;
+            if seq.len() <= 2 {
+                // ... and the other ReadBuf coding style (initialize_unfilled + advance)
+                let mut v = i.clone();
+                v.label = format!("{}#init-unfilled", i.label);
+                v.init_unfilled = true;
+                v.tick_budget = 0;
+                out.push(v);
+            }
             out.push(i);
         }
         // the same drops late in a long session: the spare capacity of the receive buffer shrinks to
